@@ -269,11 +269,17 @@ package trend
 //@ ensures[C04] forall kk :: 0 <= kk && kk < len(result) ==> hor(result, kk) <= max(hor(highs, kk + (0)), max(hor(lows, kk + (0)), hor(closes, kk + (0))))
 //@ ensures[C01] forall k :: 0 <= k && k < len(result) ==> result[k] == (highs[k] + lows[k] + closes[k] * 2) / 4
 
+// VWMA = Sum(Price * Volume) / Sum(Volume) over the last Period bars
+//@ stream vwmaS(c stream, v stream, P int)[k] = (psum(mulS(c, v), k + P) - psum(mulS(c, v), k)) / (psum(v, k + P) - psum(v, k))
 //@ func Vwma.Compute
 //@ requires v.Period >= 1 && consumed(closing) == 0 && consumed(volume) == 0 && len(closing) == len(volume)
 //@ ensures[C02] len(result) == max(0, len(closing) - (v.IdlePeriod()))
 //@ ensures[C03] consumed(closing) == len(closing) && consumed(volume) == len(volume) && closed(result)
 //@ ensures[C04] forall kk :: 0 <= kk && kk < len(result) ==> hor(result, kk) <= max(hor(closing, kk + (v.IdlePeriod())), hor(volume, kk + (v.IdlePeriod())))
+//@ step[C01] "products" forall j :: 0 <= j && j < len(closing) ==> res(Multiply, 0)[j] == mulS(closing, volume)[j]
+//@ use psum_cong(res(Multiply, 0), mulS(closing, volume), _)
+//@ use psum_cong(volumes[1], volume, _)
+//@ ensures[C01] "documented" forall k :: 0 <= k && k < len(result) ==> result[k] == vwmaS(closing, volume, v.Period)[k]
 
 // Aroon has no IdlePeriod method; the moving max/min over Period values implies Period-1
 // documented: Aroon Up = ((P - periods since the P-period high) / P) * 100, Aroon Down likewise with the low.
